@@ -316,8 +316,11 @@ func c08Run(c *core.Ctx) {
 						run(c08Case{Op: op, Alg: alg, Bearer: b, Dir: d, Key: k, Count: 0x00000102, Payload: hex.EncodeToString(patPayload(2, l)), Prefix: l == top || l <= 9})
 					}
 				}
-				for ki := 0; ki < len(keys); ki += 1 + 7*(1-btoi(c.Thorough())) {
-					for ci := 0; ci < len(counts); ci += 1 + 5*(1-btoi(c.Thorough())) {
+				// thorough: the complete key x count product on the boundary bearers, the quick strides elsewhere
+				full := btoi(c.Thorough() && (b == 0 || b == 1 || b == 16 || b == 31))
+				for ki := 0; ki < len(keys); ki += 1 + 7*(1-full) {
+					c.Tick()
+					for ci := 0; ci < len(counts); ci += 1 + 5*(1-full) {
 						for _, l := range []int{0, 1, 4, 5, 8, 9, 16, 17, 33} {
 							kk := keys[ki]
 							for _, op := range []string{"encrypt", "mac"} {
@@ -353,9 +356,7 @@ func c08Run(c *core.Ctx) {
 			if !c.Mine(li) {
 				continue
 			}
-			if li%32 == 0 {
-				c.Tick()
-			}
+			c.Tick()
 			for alg := 0; alg <= 3; alg++ {
 				for _, op := range []string{"encrypt", "mac"} {
 					run(c08Case{Op: op, Alg: alg, Bearer: 9, Dir: l & 1, Key: k, Count: 0x00A1B2C3, Payload: hex.EncodeToString(patPayload(2, l))})
